@@ -114,6 +114,8 @@ Step == /\ l <= Len(TraceLog)
         /\ fired' = LET f == Fire(TraceLog[l]) IN [k \in Clauses |-> fired[k] + f[k]]
         /\ UNCHANGED c
 MSpec == MInit /\ [][Step]_mvars
+\* the trace is one linear behaviour: the line number identifies the state (keeps the growing `viol` out of the fingerprint)
+MView == l
 
 Done == (l = Len(TraceLog) + 1) =>
           PrintT("@@J " \o ToJson([kind |-> "RESULT", events |-> Len(TraceLog), viol |-> viol, fired |-> fired]))
